@@ -8,15 +8,20 @@ THEOREMS = ["coarse_shape_covers", "repcell_spec", "valid_iff_outlet_dmm", "vali
             "outlet_pixel_spec", "rep_pixels_distinct", "outlet_pixels_distinct", "d8_idx_spec", "upstream_d8_idx_spec", "eam_plus_answers", "up_eam_plus_no_err", "eam_plus_answers_needs_d8", "up_ihu_links_d8", "up_ihu_outlets_valid_topo", "up_ihu_outlets_distinct", "up_ihu_valid_iff_outlet", "up_ihu_outlet_cell_valid", "up_ihu_outlet_cell_valid_refuted", "up_ihu_no_marker", "up_ihu_valid_iff_outlet_total", "up_ihu_scale1", "up_ihu_scale1_net", "up_ihu_loop_refuted", "up_ihu_loop_refuted_minimize_error", "up_ihu_cycle_through_unflagged", "gen_up_subidx_2_idx_eq", "gen_up_in_d8_eq", "gen_up_cell_edge_eq", "gen_up_dmm_exitcell_eq", "gen_up_eam_repcell_eq", "gen_up_dmm_nextidx_eq", "gen_up_eam_nextidx_eq", "gen_up_ihu_outlets_eq", "gen_up_ihu_nextidx_eq", "gen_up_upscale_error_eq", "gen_up_upscale_error_assert", "gen_ihu_upscale_check_eq", "gen_ihu_optimize_rivlen_eq", "gen_ihu_minimize_error_eq", "gen_ihu_ihu_up_ihu", "eam_plus_link_partial", "upscale_error_spec", "first_outlet_downstream", "outlet_map_spec", "eam_scale1", "eam_plus_scale1", "eam_link_increases", "eam_loopfree", "eam_plus_loopfree", "eam_links_d8", "eam_plus_links_d8", "dmm_links_d8", "dmm_loopfree"]
 RULE = ("random loop-free fine D8 networks 2x2..12x12 (ragged w.r.t. the scale factor, nodata regions, many small basins, "
         "single rows / columns) x methods dmm, eam, eam_plus, ihu x scale factors 1..5 x default and user upstream area "
-        "(accumulations of positive integer weights); FlwdirRaster.upscale + upscale_error; the three non-iterative "
-        "methods are compared exactly (coarse links, outlet pixels, shape) with the model run on the same effective-area "
-        "map; upscale_error is compared with the model for all four methods; the oracle checks the property's clauses on "
+        "(accumulations of positive integer weights), larger rasters to 15x15 for ihu / eam_plus, constructed rasters (corpus); "
+        "FlwdirRaster.upscale + upscale_error; ALL FOUR methods are compared exactly (coarse links, outlet pixels, shape) with "
+        "their models run on the same effective-area map -- ihu (model theories/Ihu.v, kernel 916) against a second run of the "
+        "implementation with a stable np.argsort, integer areas only; core._d8_idx on every coarse cell (kernel 915); "
+        "upscale_error is compared with the model for all four methods; the oracle checks the property's clauses on "
         "the implementation's output (success, shape, loop-free, 8-neighbour links, valid iff outlet, outlet pixels "
         "distinct / valid / in a cell with valid pixels / in their own cell for non-iterative methods, scale 1 = input, "
         "connection flags against an independent walk); non-trivial = the coarse network has a link")
 ASSUMPTIONS = ["the effective-area map is an input of the model (taken from upscale.map_effare; its float formula is not modelled)",
-               "the iterative stages of ihu (relocate outlets, optimise river length, minimise error) are not modelled: "
-               "for ihu the property is decided on the implementation's outputs only (exploration, not proof)",
+               "ihu: upscale.py sorts cells by upstream area with NumPy's default (unstable, CPU-dependent) argsort; the model uses a "
+               "stable sort and is compared with a run of the implementation in which np.argsort is stable; the property's clauses are "
+               "decided on the unmodified run",
+               "the hypotheses of the ihu / eam_plus theorems (fine links join 8-neighbours, the effective-area map contains the cell "
+               "crosses) are evaluated on every input by the proved-sound boolean checks of kernel 914",
                "upstream areas are integers in the model"]
 METHODS = ["dmm", "eam", "eam_plus", "ihu"]
 
